@@ -14,6 +14,7 @@ from core import framework as fw
 from core import sexp
 
 F = fractions.Fraction
+EPS = F(1, 10**9)  # 'within one request' is inclusive; float representation noise of the targets
 _STAGING = tempfile.mkdtemp(prefix='verif-c17-')
 atexit.register(shutil.rmtree, _STAGING, ignore_errors=True)
 
@@ -185,11 +186,11 @@ class C17(fw.Check):
             counts[p] += 1
             for v in order:
                 dev = counts[v] - share[v] * n
-                if dev > 1:
+                if dev > 1 + EPS:
                     out.append((f'variant {v} is {float(dev):.3f} requests ahead of its share at n={n}',
                                 'abtest-upper-bound', {'n': n, 'variant': v}))
                     return out
-                if dev < -1:
+                if dev < -1 - EPS:
                     if k >= 3 and dev > -(k - 1):
                         out.append((f'variant {v} is {float(-dev):.3f} requests behind its share at n={n} (k={k})',
                                     'abtest-lower-bound-k>=3-within-k-1', {'n': n, 'variant': v, 'k': k}))
